@@ -77,7 +77,10 @@ def _ip_rule(ctx, fn, repr_adt, sites_names, dst_guards, src_guards, exceptions=
     pd = p_any(*[p_call(mpred(F, adt, meth), True, dleaf, forbid=sleaf) for (adt, meth) in dst_guards])
     ps = p_any(*[p_call(mpred(F, adt, meth), True, sleaf, forbid=dleaf) for (adt, meth) in src_guards])
     ctx.need(guard_edges(F, b, pd) or pass_edges(F, b, pd), f"destination-address guards in {fn}")
-    ctx.need(guard_edges(F, b, ps) or pass_edges(F, b, ps), f"source-address guards in {fn}")
+    if not (guard_edges(F, b, ps) or pass_edges(F, b, ps)):
+        ctx.bad(f"{fn}|no-source-sanity-filter", f"{fn} has no test `{'/'.join(m for _, m in src_guards)}` of the source address left: packets from a non-unicast source (multicast, broadcast, "
+                "unspecified) reach protocol processing and are answered - a reply addressed to the unspecified address trips dispatch_ip's assertion", body=b)
+        return
     for s, n in sites:
         bad = unguarded(F, b, [s], pd)
         if bad:
